@@ -2859,7 +2859,10 @@ class BlockGen:
             # ("+ 0": a variable may hold a stored comparison result, and booleans have no // % >>)
             return {"op": r.choice(["//", "%", ">>"]), "a": {"op": "+", "a": self.leaf(), "b": {"k": 0}},
                     "b": {"k": r.choice([1, 2, 3])}}
-        return {"call": r.choice(["ite", "ite_lazy"]), "cond": self.cmp(), "t_": self.leaf(), "f_": self.leaf()}
+        e = {"call": r.choice(["ite", "ite_lazy"]), "cond": self.cmp(), "t_": self.leaf(), "f_": self.leaf()}
+        if e["call"] == "ite_lazy" and r.random() < 0.15:
+            e["same"], e["f_"] = True, e["t_"]
+        return e
 
     def secret(self, e):
         """e + 0*secret: same value, guaranteed secret-typed (the property is about secret conditions)."""
